@@ -7,6 +7,6 @@ git -C /repo worktree add -q --detach $D HEAD || exit 2
 trap 'git -C /repo worktree remove --force '"$D"' 2>/dev/null' EXIT
 git -C $D apply "$P" || { echo "patch does not apply"; exit 2; }
 for id in "$@"; do
-  out=$(cd /verif && VERIF_REPO=$D VERIF_ROOT=/verif/.build/alt-root ./check $id --tier quick 2>&1); rc=$?
+  out=$(cd /verif && VERIF_REPO=$D VERIF_ROOT=/verif/.build/alt-root ./check $id --tier ${VERIF_TIER_ALT:-quick} ${VERIF_EXTRA:-} 2>&1); rc=$?
   echo "== $id exit=$rc"; echo "$out" | grep -E "^(VIOLATION|KNOWN-FINDING|ENGINE-ERROR)|signature:" | cut -c1-220 | sort -u | head -10
 done
